@@ -4,12 +4,19 @@ N(v, ks) == [t |-> "node", v |-> v, kinds |-> ks]
 R(v, ks, d) == [t |-> "rel", v |-> v, kinds |-> ks, dir |-> d, single |-> TRUE, lo |-> 1, hi |-> 1]
 RV(v, ks, d, lo, hi) == [t |-> "rel", v |-> v, kinds |-> ks, dir |-> d, single |-> FALSE, lo |-> lo, hi |-> hi]
 G == [n |-> 3, kinds |-> << <<1>>, <<2>>, <<1, 2>> >>, edges |-> << [s |-> 1, t |-> 2, k |-> 1], [s |-> 2, t |-> 3, k |-> 1], [s |-> 3, t |-> 3, k |-> 2] >>]
-Q1 == [hidden |-> <<>>, clauses |-> << [t |-> "match", atoms |-> <<>>, pats |-> << [pv |-> "p", rev |-> FALSE, els |-> <<N("a", <<>>), R("r", <<>>, "out"), N("b", <<>>)>>] >>] >>]
-Q1r == [hidden |-> <<>>, clauses |-> << [t |-> "match", atoms |-> <<>>, pats |-> << [pv |-> "p", rev |-> TRUE, els |-> <<N("b", <<>>), R("r", <<>>, "in"), N("a", <<>>)>>] >>] >>]
-Q1bad == [hidden |-> <<>>, clauses |-> << [t |-> "match", atoms |-> <<>>, pats |-> << [pv |-> "p", rev |-> FALSE, els |-> <<N("b", <<>>), R("r", <<>>, "in"), N("a", <<>>)>>] >>] >>]
-Q2 == [hidden |-> <<"_1">>, clauses |-> << [t |-> "match", atoms |-> <<>>, pats |-> << [pv |-> "", rev |-> FALSE, els |-> <<N("a", <<1>>), RV("_1", <<1>>, "out", 1, 0), N("b", <<>>)>>] >>] >>]
-Q3 == [hidden |-> <<>>, clauses |-> << [t |-> "match", atoms |-> <<>>, pats |-> << [pv |-> "", rev |-> FALSE, els |-> <<N("a", <<>>)>>] >>],
-                                        [t |-> "optional", atoms |-> <<>>, pats |-> << [pv |-> "", rev |-> FALSE, els |-> <<N("a", <<>>), R("r", <<2>>, "out"), N("c", <<>>)>>] >>] >>]
+Q1 == [hidden |-> <<>>, parts |-> << [carry |-> <<>>, drop |-> <<>>, clauses |-> << [t |-> "match", atoms |-> <<>>, pats |-> << [pv |-> "p", rev |-> FALSE, els |-> <<N("a", <<>>), R("r", <<>>, "out"), N("b", <<>>)>>] >>] >> ] >>]
+Q1r == [hidden |-> <<>>, parts |-> << [carry |-> <<>>, drop |-> <<>>, clauses |-> << [t |-> "match", atoms |-> <<>>, pats |-> << [pv |-> "p", rev |-> TRUE, els |-> <<N("b", <<>>), R("r", <<>>, "in"), N("a", <<>>)>>] >>] >> ] >>]
+Q1bad == [hidden |-> <<>>, parts |-> << [carry |-> <<>>, drop |-> <<>>, clauses |-> << [t |-> "match", atoms |-> <<>>, pats |-> << [pv |-> "p", rev |-> FALSE, els |-> <<N("b", <<>>), R("r", <<>>, "in"), N("a", <<>>)>>] >>] >> ] >>]
+Q2 == [hidden |-> <<"_1">>, parts |-> << [carry |-> <<>>, drop |-> <<>>, clauses |-> << [t |-> "match", atoms |-> <<>>, pats |-> << [pv |-> "", rev |-> FALSE, els |-> <<N("a", <<1>>), RV("_1", <<1>>, "out", 1, 0), N("b", <<>>)>>] >>] >> ] >>]
+Q3 == [hidden |-> <<>>, parts |-> << [carry |-> <<>>, drop |-> <<>>, clauses |-> << [t |-> "match", atoms |-> <<>>, pats |-> << [pv |-> "", rev |-> FALSE, els |-> <<N("a", <<>>)>>] >>],
+                                        [t |-> "optional", atoms |-> <<>>, pats |-> << [pv |-> "", rev |-> FALSE, els |-> <<N("a", <<>>), R("r", <<2>>, "out"), N("c", <<>>)>>] >>] >> ] >>]
+Q4 == [hidden |-> <<"_w0_a", "_w0_r">>, parts |-> <<
+          [carry |-> <<[f |-> "b", t |-> "x"]>>, drop |-> <<[f |-> "a", t |-> "_w0_a"], [f |-> "r", t |-> "_w0_r"]>>,
+           clauses |-> << [t |-> "match", atoms |-> <<>>, pats |-> << [pv |-> "", rev |-> FALSE, els |-> <<N("a", <<>>), R("r", <<>>, "out"), N("b", <<>>)>>] >>] >>],
+          [carry |-> <<>>, drop |-> <<>>,
+           clauses |-> << [t |-> "match", atoms |-> <<>>, pats |-> << [pv |-> "", rev |-> FALSE, els |-> <<N("x", <<>>), R("q", <<>>, "out"), N("c", <<>>)>>] >>] >>] >>]
+ASSUME PrintT(<<"Q4", Results(G, Q4)>>)
+ASSUME Cardinality(Rows(G, Q4)) = 3      \* 1->2 then 2->3; 2->3 then 3->3; 3->3 then 3->3 (uniqueness is per MATCH clause)
 ASSUME PrintT(<<"Q1", Cardinality(Rows(G, Q1))>>)
 ASSUME Cardinality(Rows(G, Q1)) = 3
 ASSUME SameResults(G, Q1, Q1r)
